@@ -256,6 +256,8 @@ class Evaluator(object):
         return self.summary
 
     def site(self, kind, node, **d):
+        if kind == "call" and d.get("callee") == "np.nonzero":
+            d["callee"] = "np.where"  # one name for the one-argument index selection
         s = Site(kind, self.func, node, self.pc, **d)
         self.summary.sites.append(s)
         return s
@@ -581,12 +583,50 @@ class Evaluator(object):
             lens = {len(z.a) for z in it.a[1] if z.op == "tuple"}
             if len(lens) == 1 and 1 <= min(lens) <= 16:
                 n = lens.pop()
+                for z in it.a[1]:
+                    # zip stops at the shortest argument: a callee that returns a shorter tuple on every path
+                    rl = self._syntactic_return_len(z.a[0]) if z.op == "call" else None
+                    if rl is not None and 1 <= rl < n:
+                        n = rl
                 return [tm.tup([z.a[i] if z.op == "tuple" else tm.proj(z, i) for z in it.a[1]]) for i in range(n)]
         if it.op == "call" and tm.callee_name(it.a[0]) == "builtins.enumerate" and len(it.a[1]) == 1 and not it.a[2]:
             inner = self._unroll_elements(it.a[1][0])
             if inner is not None:
                 return [tm.tup([tm.const(i), x]) for i, x in enumerate(inner)]
         return None
+
+    def _syntactic_return_len(self, fn):
+        """n when every return statement of the repo function is a tuple display of n values, else None"""
+        if fn.op not in ("func", "localfunc") or not self.P.has_func(fn.a[0]):
+            return None
+        g = self.P.func(fn.a[0])
+        lens = set()
+        for n in _own_nodes(g.node):
+            if isinstance(n, ast.Return):
+                if not isinstance(n.value, ast.Tuple) or any(isinstance(e, ast.Starred) for e in n.value.elts):
+                    return None
+                lens.add(len(n.value.elts))
+        return lens.pop() if len(lens) == 1 else None
+
+    def _unrolled(self, st, env, elems):
+        """the unrolling of a loop over the listed elements; `continue` ends one copy of the body"""
+        cur = env
+        saved = self.pc
+        for k_, e in enumerate(elems):
+            self.assign(st.target, e, cur, st)
+            ctx = _LoopCtx("U%d_%d" % (id(st) % 100000, k_))
+            ctx.unrolled = True
+            self.loopstack.append(ctx)
+            out = self.run_keep_pc(st.body, cur)
+            self.loopstack.pop()
+            ends = ([out] if out is not None else []) + ctx.continues
+            if not ends:
+                self.pc = saved
+                return None
+            cur = ends[0] if len(ends) == 1 else self.merge_many(ends, ctx.lid + "c")
+            if ctx.continues:
+                self.pc = saved  # what one copy established under its own tests does not hold for the next
+        return cur
 
     _ROW_REDUCERS = ("np.min", "np.max", "np.sum", "np.mean", "np.any", "np.all", "np.amin", "np.amax", "np.argmin", "np.argmax")
     _ELEMENTWISE = ("np.abs", "np.absolute", "np.square", "np.exp", "np.sqrt", "np.around", "np.round", "np.fabs", "np.negative")
@@ -664,26 +704,37 @@ class Evaluator(object):
                 return self._for_rows(st, env, rw[0], rw[1])
         elems = self._unroll_elements(it) if UNROLL else None
         if elems is not None and not st.orelse and not any(isinstance(n, ast.Break) for n in _own_loop_nodes(st)):
-            # a loop over a literal collection is its unrolling; `continue` ends one copy of the body
-            cur = env
-            saved = self.pc
-            for k_, e in enumerate(elems):
-                self.assign(st.target, e, cur, st)
-                ctx = _LoopCtx("U%d_%d" % (id(st) % 100000, k_))
-                ctx.unrolled = True
-                self.loopstack.append(ctx)
-                n_before = len(self.loopstack)
-                out = self.run_keep_pc(st.body, cur)
-                self.loopstack.pop()
-                ends = ([out] if out is not None else []) + ctx.continues
-                if not ends:
-                    self.pc = saved
+            # a loop over a literal collection is its unrolling
+            return self._unrolled(st, env, elems)
+        if UNROLL and it.op == "ite" and not st.orelse and not any(isinstance(n, (ast.Break, ast.Continue)) for n in _own_loop_nodes(st)):
+            # a loop over one of two literal collections (`xs = [a]; if c: xs.append(b)`): the common leading elements
+            # are visited either way, the rest under the test that selects the collection
+            ea, eb = self._display_elements(it.a[1]), self._display_elements(it.a[2])
+            if ea is not None and eb is not None and (ea or eb):
+                k = 0
+                while k < len(ea) and k < len(eb) and ea[k] is eb[k]:
+                    k += 1
+                cur = self._unrolled(st, env, ea[:k]) if k else env
+                if cur is None:
                     return None
-                cur = ends[0] if len(ends) == 1 else self.merge_many(ends, ctx.lid + "c")
-                if ctx.continues:
-                    self.pc = saved  # what one copy established under its own tests does not hold for the next
-            return cur
+                c = it.a[0]
+                saved = self.pc
+                outs = []
+                for pol, rest in ((True, ea[k:]), (False, eb[k:])):
+                    self.pc = saved + (("if", c, pol, None),)
+                    outs.append(self._unrolled(st, dict(cur), rest) if rest else dict(cur))
+                self.pc = saved
+                if outs[0] is None and outs[1] is None:
+                    return None
+                if outs[0] is None or outs[1] is None:
+                    return outs[0] if outs[1] is None else outs[1]
+                return self.merge(c, outs[0], outs[1])
         return self._for_core(st, env, it, None)
+
+    def _display_elements(self, it):
+        if it.op in ("tuple", "list") and not it.a:
+            return []
+        return self._unroll_elements(it)
 
     def _for_rows(self, st, env, a, elem):
         return self._for_core(st, env, a, elem)
@@ -1337,6 +1388,14 @@ class Evaluator(object):
             fn = args[0]
             args = args[1:]
         args, kw = self.canonical_args(fn, args, kw)
+        if fn is not None and tm.callee_name(fn) == "builtins.map" and len(args) == 2 and not kw and args[0].op in ("builtin", "func", "localfunc", "ext"):
+            # map(f, it) is (f(x) for x in it)
+            self.ncomps += 1
+            cid = "C%d" % self.ncomps
+            it = args[1]
+            while it.op == "call" and tm.callee_name(it.a[0]) in ("builtins.list", "builtins.tuple", ".tolist") and len(it.a[1]) == 1 and not it.a[2]:
+                it = it.a[1][0]
+            return tm.mk("comp", "gen", self.apply(args[0], (tm.mk("iter", it, cid),), ()), (it,), (), cid)
         if base is not None and node.func.attr == "format" and base.op == "const" and isinstance(base.a[0], str) and not kw and args and all(a_.op == "const" and isinstance(a_.a[0], str) for a_ in args):
             try:
                 return tm.const(base.a[0].format(*[a_.a[0] for a_ in args]))
@@ -1775,6 +1834,21 @@ def _mutated_globals(module):
             if not ok:
                 out.add(n.id)
     module._mutated_globals = out
+    return out
+
+
+def _own_nodes(fn_node):
+    """statements of a function that are not inside a nested function or class"""
+    out = []
+    stack = list(fn_node.body)
+    while stack:
+        n = stack.pop()
+        out.append(n)
+        if isinstance(n, (ast.FunctionDef, ast.Lambda, ast.ClassDef)):
+            continue
+        for ch in ast.iter_child_nodes(n):
+            if isinstance(ch, ast.stmt) or isinstance(ch, ast.excepthandler):
+                stack.append(ch)
     return out
 
 
